@@ -6,6 +6,7 @@ import (
 	"bufio"
 	"bytes"
 	"encoding/base64"
+	"encoding/binary"
 	"encoding/json"
 	"fmt"
 	"os"
@@ -40,6 +41,11 @@ type protoConv struct {
 }
 
 var noPreempt = map[string]bool{}
+
+var schedProtos map[string]*protoConv
+
+// schedPreempt: which yield points park a task; nil = every point outside a locked region
+var schedPreempt func(point string) bool
 
 func init() {
 	dir := os.Getenv("VERIF_FACTS")
@@ -138,7 +144,106 @@ func init() {
 			},
 		},
 	}
-	_ = amqpExt.NewDissector
+	// AMQP: exchange i is queue.declare "q<i>" / queue.declare-ok "q<i>" on channel i (one
+	// outstanding request per channel and class: the matcher's key)
+	amqpFrame := func(ch int, payload []byte) []byte {
+		var b bytes.Buffer
+		b.WriteByte(1)
+		_ = binary.Write(&b, binary.BigEndian, uint16(ch))
+		_ = binary.Write(&b, binary.BigEndian, uint32(len(payload)))
+		b.Write(payload)
+		b.WriteByte(0xCE)
+		return b.Bytes()
+	}
+	amqpQueueOrd := func(p map[string]interface{}) int {
+		var find func(v interface{}) string
+		find = func(v interface{}) string {
+			switch x := v.(type) {
+			case map[string]interface{}:
+				if q, ok := x["queue"].(string); ok {
+					return q
+				}
+				for _, y := range x {
+					if r := find(y); r != "" {
+						return r
+					}
+				}
+			}
+			return ""
+		}
+		q := find(p)
+		if !strings.HasPrefix(q, "q") {
+			return -1
+		}
+		n, err := strconv.Atoi(q[1:])
+		if err != nil {
+			return -1
+		}
+		return n
+	}
+	protos["amqp"] = &protoConv{
+		dissector: amqpExt.NewDissector(),
+		client: func(n int) []byte {
+			var b []byte
+			for i := 1; i <= n; i++ {
+				q := fmt.Sprintf("q%d", i)
+				var p bytes.Buffer
+				_ = binary.Write(&p, binary.BigEndian, uint16(50))
+				_ = binary.Write(&p, binary.BigEndian, uint16(10))
+				_ = binary.Write(&p, binary.BigEndian, uint16(0))
+				p.WriteByte(byte(len(q)))
+				p.WriteString(q)
+				p.WriteByte(0)
+				_ = binary.Write(&p, binary.BigEndian, uint32(0))
+				b = append(b, amqpFrame(i, p.Bytes())...)
+			}
+			return b
+		},
+		server: func(n int) []byte {
+			var b []byte
+			for i := 1; i <= n; i++ {
+				q := fmt.Sprintf("q%d", i)
+				var p bytes.Buffer
+				_ = binary.Write(&p, binary.BigEndian, uint16(50))
+				_ = binary.Write(&p, binary.BigEndian, uint16(11))
+				p.WriteByte(byte(len(q)))
+				p.WriteString(q)
+				_ = binary.Write(&p, binary.BigEndian, uint32(i))
+				_ = binary.Write(&p, binary.BigEndian, uint32(0))
+				b = append(b, amqpFrame(i, p.Bytes())...)
+			}
+			return b
+		},
+		reqOrd:  amqpQueueOrd,
+		respOrd: amqpQueueOrd,
+		identOrd: func(id string) int {
+			f := strings.Split(id, "_")
+			if len(f) < 5 {
+				return -1
+			}
+			n, _ := strconv.Atoi(f[4])
+			return n
+		},
+	}
+	// HTTP/1.0 with keep-alive: the same pairing through the protoMinor == 0 paths
+	h10 := *protos["http"]
+	h10.client = func(n int) []byte {
+		var b bytes.Buffer
+		for i := 1; i <= n; i++ {
+			fmt.Fprintf(&b, "GET /r%d HTTP/1.0\r\nHost: h\r\nConnection: keep-alive\r\n\r\n", i)
+		}
+		return b.Bytes()
+	}
+	h10.server = func(n int) []byte {
+		var b bytes.Buffer
+		for i := 1; i <= n; i++ {
+			body := fmt.Sprintf("%d", i)
+			fmt.Fprintf(&b, "HTTP/1.0 200 OK\r\nConnection: keep-alive\r\nContent-Length: %d\r\n\r\n%s", len(body), body)
+		}
+		return b.Bytes()
+	}
+	protos["http10"] = &h10
+	schedProtos = protos
 	for name, pc := range protos {
 		pc := pc
 		families["sched.match."+name] = &Family{
@@ -148,7 +253,12 @@ func init() {
 	}
 }
 
-func preemptible(point string) bool { return !noPreempt[point] }
+func preemptible(point string) bool {
+	if schedPreempt != nil {
+		return schedPreempt(point)
+	}
+	return !noPreempt[point]
+}
 
 type schedRun struct {
 	conn *mock.Conn
